@@ -228,8 +228,53 @@ func remainingBudget(r *engine.Run) time.Duration {
 	return left
 }
 
+// childRun is the fate of one child process.
+type childRun struct {
+	st   streamState
+	died bool
+	err  error
+	log  string
+}
+
+// runChild starts one child for the family (the whole shard from case #skip,
+// or the single case `key`) and replays its accounting stream into r.
+func runChild(r *engine.Run, self string, skip int, key string) (childRun, error) {
+	args := []string{"worker", "C02", "--tier", r.Tier, "--family", r.Family(),
+		"--shard", strconv.Itoa(r.Shard), "--of", strconv.Itoa(r.NShards), "--budget", remainingBudget(r).String()}
+	if key != "" {
+		args = append(args, "--key", key)
+	}
+	cmd := exec.Command(self, args...)
+	cmd.Env = append(os.Environ(), childEnv+"=1", skipEnv+"="+strconv.Itoa(skip), "TZ=UTC", "GOMAXPROCS=2", "GOTRACEBACK=single")
+	// The engine's worker adopts descriptor 3 as its announce pipe whenever it is
+	// open (and wraps it in an *os.File even when it is not): give the child a
+	// harmless one.
+	if null, e := os.OpenFile(os.DevNull, os.O_WRONLY, 0); e == nil {
+		cmd.ExtraFiles = []*os.File{null}
+		defer null.Close()
+	}
+	var stderr bytes.Buffer
+	cmd.Stderr = &capWriter{w: &stderr, n: 256 << 10}
+	stdout, err := cmd.StdoutPipe()
+	if err != nil {
+		return childRun{}, fmt.Errorf("pipe: %w", err)
+	}
+	if err := cmd.Start(); err != nil {
+		return childRun{}, fmt.Errorf("cannot start child: %w", err)
+	}
+	timer := time.AfterFunc(childWallLimit, func() { _ = cmd.Process.Kill() })
+	st := replayStream(r, stdout)
+	werr := cmd.Wait()
+	timer.Stop()
+	return childRun{st: st, died: !(st.done && werr == nil), err: werr, log: stderr.String()}, nil
+}
+
 // superviseFamily runs the family's shard in child processes, restarting after
-// every death.
+// every death. A death is believed only if it reproduces: the announced case
+// is executed once more, alone, in a fresh child. (A host stall — the sandbox
+// VM being paused — makes every child's 60 s watchdog fire at once on cases
+// that take microseconds; such a death does not reproduce and is recorded as a
+// note, not as a violation.)
 func superviseFamily(r *engine.Run) {
 	self, err := os.Executable()
 	if err != nil {
@@ -242,68 +287,62 @@ func superviseFamily(r *engine.Run) {
 			r.Cap("time budget reached")
 			return
 		}
-		args := []string{"worker", "C02", "--tier", r.Tier, "--family", r.Family(),
-			"--shard", strconv.Itoa(r.Shard), "--of", strconv.Itoa(r.NShards), "--budget", remainingBudget(r).String()}
-		if r.ReplayKey != "" {
-			args = append(args, "--key", r.ReplayKey)
-		}
-		cmd := exec.Command(self, args...)
-		cmd.Env = append(os.Environ(), childEnv+"=1", skipEnv+"="+strconv.Itoa(skip), "TZ=UTC", "GOMAXPROCS=2", "GOTRACEBACK=single")
-		// The engine's worker adopts descriptor 3 as its announce pipe whenever it
-		// is open (and wraps it in an *os.File even when it is not): give the
-		// child a harmless one.
-		if null, e := os.OpenFile(os.DevNull, os.O_WRONLY, 0); e == nil {
-			cmd.ExtraFiles = []*os.File{null}
-			defer null.Close()
-		}
-		var stderr bytes.Buffer
-		cmd.Stderr = &capWriter{w: &stderr, n: 256 << 10}
-		stdout, err := cmd.StdoutPipe()
+		c, err := runChild(r, self, skip, r.ReplayKey)
 		if err != nil {
-			r.HarnessError("pipe: " + err.Error())
+			r.HarnessError(err.Error())
 			return
 		}
-		if err := cmd.Start(); err != nil {
-			r.HarnessError("cannot start child: " + err.Error())
+		if !c.died {
 			return
 		}
-		timer := time.AfterFunc(childWallLimit, func() { _ = cmd.Process.Kill() })
-		st := replayStream(r, stdout)
-		werr := cmd.Wait()
-		timer.Stop()
-		if st.done && werr == nil {
-			return
-		}
-		// the child died
-		log := stderr.String()
-		if !st.inCase {
+		if !c.st.inCase {
 			r.HarnessError(fmt.Sprintf("child of family %s died outside a case (after case #%d %q): %v: %s",
-				r.Family(), st.lastIdx, st.lastKey, werr, headTail(log, 1500)))
+				r.Family(), c.st.lastIdx, c.st.lastKey, c.err, headTail(c.log, 1500)))
 			return
+		}
+		key, desc, idx := c.st.lastKey, c.st.lastDesc, c.st.lastIdx
+		if r.ReplayKey == "" {
+			// confirm: the case alone in a fresh child (its accounting is replayed
+			// into r, so the case is counted exactly once either way)
+			c2, err := runChild(r, self, 0, key)
+			if err != nil {
+				r.HarnessError(err.Error())
+				return
+			}
+			if !c2.died {
+				r.Note(fmt.Sprintf("a child died (%s) in case %q but the case completes when re-executed alone: not reproducible, not reported", fatalClass(c.log), key))
+				if idx < skip {
+					r.HarnessError("child restarted but made no progress")
+					return
+				}
+				skip = idx + 1
+				continue
+			}
+			c = c2
 		}
 		deaths++
-		class, site := fatalClass(log), fatalSite(log)
-		first := firstFatalLine(log)
-		devDump(st.lastKey, st.lastDesc, "fatal", class, first, site, "")
+		class, site := fatalClass(c.log), fatalSite(c.log)
+		first := firstFatalLine(c.log)
+		devDump(key, desc, "fatal", class, first, site, "")
 		r.Eval(true)
 		r.Outcome("fatal:" + class + "@" + site)
-		aux := parseKeyAux(r.Family(), st.lastKey)
+		aux := parseKeyAux(r.Family(), key)
 		aux["phase"], aux["class"], aux["site"], aux["panic"] = "fatal", class, site, first
-		input := st.lastDesc
+		input := desc
 		if input == "" {
-			input = "case " + st.lastKey + " (family " + r.Family() + ")"
+			input = "case " + key + " (family " + r.Family() + ")"
 		}
-		r.Mismatch(engine.Mismatch{Key: st.lastKey, Input: input,
+		r.Mismatch(engine.Mismatch{Key: key, Input: input,
 			Expected: "the API call returns a value or an error",
-			Observed: "process died: " + class + " @ " + site + " (" + first + ")", Note: headTail(log, 5000), Aux: aux})
+			Observed: "process died: " + class + " @ " + site + " (" + first + ")", Note: headTail(c.log, 5000), Aux: aux})
 		if r.ReplayKey != "" {
 			return
 		}
-		if st.lastIdx < skip {
+		if idx < skip {
 			r.HarnessError("child restarted but made no progress")
 			return
 		}
-		skip = st.lastIdx + 1
+		skip = idx + 1
 		if deaths > 50000 {
 			r.HarnessError("too many child deaths")
 			return
